@@ -3,6 +3,7 @@
    sumbool, sumor map to their OCaml counterparts; nat, positive, N, Z stay Coq inductive types. *)
 Require Import Coq.ZArith.ZArith.
 Require Import Trzsz.Model.Escape.
+Require Import Trzsz.Model.Pause.
 Require Extraction.
 Require Import ExtrOcamlBasic.
 Extraction "model.ml"
@@ -31,4 +32,18 @@ Extraction "model.ml"
   Escape.table_of_json
   Escape.builtin_table
   Escape.esc_code
-  Escape.unesc_code.
+  Escape.unesc_code
+  Pause.rstep
+  Pause.rrun
+  Pause.rinit
+  Pause.classify
+  Pause.payload_of
+  Pause.cfg_of
+  Pause.keepalive_line
+  Pause.sstep
+  Pause.srun
+  Pause.count_keeps
+  Pause.cstep
+  Pause.crun
+  Pause.cinit
+  Pause.quiescent.
